@@ -92,6 +92,23 @@ def classify(R, src, phase, exc, sig, detail, opt):
 
 
 def check_candidate(R, obs, rng, src, origin):
+    """one candidate under a wall-clock allowance: a mutant can declare huge arrays or make the compiler crawl;
+    that is resource exhaustion, dropped and counted like non-termination"""
+    from ..driver import time_limit, CaseTimeout
+    try:
+        with time_limit(20):
+            _check_candidate(R, obs, rng, src, origin)
+    except CaseTimeout:
+        nslapi.set_observer(None) if False else None
+        try:
+            nslapi.VM._VERIF_OBSERVER = None
+        except Exception:
+            pass
+        R.count("dropped_case_timeout")
+        R.add_to("timeout_sources", src[:160])
+
+
+def _check_candidate(R, obs, rng, src, origin):
     R.count("candidates")
     gates = []
     for opt in (False, True):
